@@ -462,9 +462,12 @@ def run_copy(ctx, nix, np, rng, fa, fb, kind, rep):
         name = rng.choice(["copy", "zz copy", "ü-copy", "c0"]) + str(rng.randrange(1000))
         if rng.random() < 0.12 and existing:
             name = rng.choice(sorted(existing))            # an existing name, given explicitly
+        elif rng.random() < 0.08:
+            name = rng.choice(["a/b", "/lead", "trail/", "x/y/z"]) + str(rng.randrange(100))      # not a legal name (C03): refused like an existing one
     target_name = name or src.name
-    expect_refusal = target_name in existing
-    info = dict(rep, kind=kind, keep_ids=keep, name=("new" if name else "default"), dest=c["dest"], children=children,
+    illegal = "/" in target_name
+    expect_refusal = target_name in existing or illegal
+    info = dict(rep, kind=kind, keep_ids=keep, name=("illegal_slash" if illegal else "new" if name else "default"), dest=c["dest"], children=children,
                 source=type(src).__name__, expect_refusal=expect_refusal, source_handle_via=c.get("via", "container"))
     t_src = Tree(nix, src, shallow_section=not children)
     ids_before = set(raw_ids(fa)) | set(raw_ids(fb))
@@ -484,7 +487,7 @@ def run_copy(ctx, nix, np, rng, fa, fb, kind, rep):
     if expect_refusal:
         ctx.count("existing_name_cases")
         if raised is None:
-            ctx.violation("existing_name_accepted:%s" % kind, info, rep)
+            ctx.violation("%s_name_accepted:%s" % ("illegal" if illegal else "existing", kind), info, rep)
         post_a, post_b = snapshot.snapshot(nix, fa), snapshot.snapshot(nix, fb)
         for nm, pre, post, f, rawpre in (("source_file", pre_a, post_a, fa, raw_a), ("other_file", pre_b, post_b, fb, raw_b)):
             d = snapshot.diff(pre, post, limit=3)
